@@ -112,10 +112,14 @@ def sig_of(c, r):
     return s
 
 
+def harness_names():
+    return ["c16x_" + s for s in SHAPES.values()] + ["c16x_d" + s for s in SHAPES.values()] + ["c16x_info"]
+
+
 def run_ext(chk):
     tier = chk.tier
     t0 = time.time()
-    names = ["c16x_" + s for s in SHAPES.values()] + ["c16x_d" + s for s in SHAPES.values()] + ["c16x_info"]
+    names = harness_names()
     paths = dict(zip(names, vlib.build(names, jobs=4)))
     t1 = time.time()
     cases = generate(chk, tier)
